@@ -103,7 +103,17 @@ def case(draw, tier):
     host_times = sorted(draw(st.sets(st.integers(start, end - 1), min_size=1, max_size=3))) if host else []
     if host:
         passive_arg = None
-    return {"host": host, "host_times": host_times, "tick_dependent": tick_dependent, "start": start, "end": end, "outer": outer, "sub": sub, "ins": ins, "depths": depths, "waive": waive, "passive_arg": passive_arg}
+    # F33: the application's own argument tagged passive(...) - honoured by the inlined form, ignored by the nested one
+    passive_tagged = draw(st.integers(0, 1)) if (npar == 2 and not host and passive_arg is None and not passthrough and draw(st.integers(0, 7)) == 0) else None
+    if passive_tagged is not None:
+        # engine precondition: the tag may not leave an inner node without any active input
+        tagged = {"arg": passive_tagged}
+        for b in body:
+            ins_ = b.get("ins", [])
+            if tagged in ins_ and not any(r != tagged and not (isinstance(r, dict) and r.get("passive")) for r in ins_):
+                passive_tagged = None
+                break
+    return {"passive_tagged": passive_tagged, "host": host, "host_times": host_times, "tick_dependent": tick_dependent, "start": start, "end": end, "outer": outer, "sub": sub, "ins": ins, "depths": depths, "waive": waive, "passive_arg": passive_arg}
 
 
 def strategy(tier):
@@ -140,6 +150,9 @@ def build(case, depth):
         stmts.append({"id": "rec", "op": "node", "ins": ["app"], "valid": []})
         return {"start": case["start"], "end": case["end"], "stmts": stmts, "subs": subs}
     app = {"id": "app", "op": "inline" if depth == 0 else "nested", "sub": top, "ins": list(case["ins"])}
+    if case.get("passive_tagged") is not None:
+        k_ = case["passive_tagged"]
+        app["ins"][k_] = {"r": app["ins"][k_], "passive": True}
     if depth >= 1 and case.get("passive_arg") is not None:
         app["active"] = [1 - case["passive_arg"]]      # the nested node listens to the other argument only
     stmts.append(app)
@@ -194,7 +207,8 @@ def check(case, ctx) -> Result:
             k = next((i for i, (x, y) in enumerate(zip(a, b)) if x != y), min(len(a), len(b)))
             res.violations.append(Viol("inline_vs_nested_differ", f"inlined result stream {a[max(0, k - 1):k + 3]} (len {len(a)}) but nested at depth {depth} gives {b[max(0, k - 1):k + 3]} (len {len(b)}); first difference at tick #{k}",
                                        {"waives_validity": case["waive"], "first_diff_at_start": bool(k < len(b) and b[k][0] == case["start"] and (k >= len(a) or a[k][0] != case["start"])),
-                                        **({"hosted_tick_dependent": True} if case.get("host") and case.get("tick_dependent") else {})}))
+                                        **({"hosted_tick_dependent": True} if case.get("host") and case.get("tick_dependent") else {}),
+                                        **({"passive_tagged_argument": True} if case.get("passive_tagged") is not None else {})}))
             break
     # non-trivial: a self-wake in a cycle without outer tick, depth >= 2
     outer_ticks = {t for s in case["outer"] for t, _ in s["script"]}
@@ -212,6 +226,8 @@ def check(case, ctx) -> Result:
         if held:
             res.labels.append("host_started_with_held_input")
         res.nontrivial = res.nontrivial or (held and len(streams.get(0, [])) >= 2)
+    if case.get("passive_tagged") is not None:
+        res.labels.append("passive_tagged_argument")
     if case["waive"]:
         res.labels.append("waives_validity")
     if case.get("passive_arg") is not None:
